@@ -5,7 +5,7 @@
 EXTENDS Sanitize
 
 CONSTANT MaxLen
-Alphabet == {"D", "N", "S", "W", "B", "P", "C", "L"}
+Alphabet == {"D", "N", "S", "W", "B", "P", "C", "L", "U"}
 VARIABLE s
 Init == s = <<>>
 Next == Len(s) < MaxLen /\ \E c \in Alphabet : s' = Append(s, c)
@@ -24,5 +24,10 @@ WsInvariant == Clean(s) => \A r \in Rewrites(s) : San(r) = s
 ComposedInvariant == Clean(s) => \A r \in Rewrites2(s) : San(r) = s
 \* ... and for strings that are not fixed points (they end in colons, carry whitespace of their own): padding never matters
 PadInvariant == (\E i \in 1..Len(s) : ~IsWs(s[i])) => \A r \in {<<"S">> \o s, s \o <<"S">>, s \o <<"W">>, s \o <<"B">>, <<"S">> \o s \o <<"S">>, <<"B">> \o s} : San(r) = San(s)
+\* the dotted date of the Croatian rule, written with single blanks, then with every member of the family in their place:
+\* what the sanitiser makes of it must not depend on the blanks (the rule runs before they are normalised)
+CroatBases == { <<"D", "P", "S", "D", "P", "S", "D", "P">>, <<"D", "P", "D", "P", "D", "P", "S", "U", "S", "D", "C", "D">>,
+                <<"D", "P", "S", "D", "P", "S", "D", "P", "S", "U", "S", "D">>, <<"D", "D", "P", "D", "P", "D", "D", "P", "S", "U">> }
+CroatInvariant == s = <<>> => \A x \in CroatBases : \A r \in Rewrites(x) \cup Rewrites2(x) : San(r) = San(x)
 DigitScriptInvariant == Num(San(s)) = San(Num(s))
 =============================================================================
